@@ -315,6 +315,37 @@ theorem keepMask_congr : ∀ (l m : List ℚ) (p q : ℚ → Bool), (∀ x ∈ l
   have : l.map p = l.map q := List.map_congr_left h
   rw [this]
 
+theorem validWave_iff (w : List ℚ) : validWave w = true ↔ (∀ x ∈ w, 0 < x) ∧ StrictInc w := by
+  simp only [validWave, Bool.and_eq_true, List.all_eq_true, decide_eq_true_eq, strictIncB_iff]
+
+theorem validWave_map_mul (w : List ℚ) (k : ℚ) (hk : 0 < k) (h : validWave w = true) : validWave (w.map (· * k)) = true := by
+  rw [validWave_iff] at h ⊢
+  refine ⟨?_, ?_⟩
+  · intro x hx
+    obtain ⟨y, hy, rfl⟩ := List.mem_map.mp hx
+    exact mul_pos (h.1 y hy) hk
+  · exact List.Pairwise.map _ (fun a b hab => (mul_lt_mul_iff_of_pos_right hk).mpr hab) h.2
+
+theorem linspace_valid (a b : ℚ) (n : ℕ) (ha : 0 < a) (hab : a < b) (hn : 2 ≤ n) : validWave (linspace a b n) = true := by
+  rw [validWave_iff]
+  unfold linspace
+  have hn1 : ¬ n = 1 := by omega
+  rw [if_neg hn1]
+  have hstep : 0 < (b - a) / ((n - 1 : ℕ) : ℚ) := by
+    apply div_pos (by linarith)
+    have : 0 < n - 1 := by omega
+    exact_mod_cast this
+  refine ⟨?_, ?_⟩
+  · intro x hx
+    obtain ⟨i, _, rfl⟩ := List.mem_map.mp hx
+    have : (0 : ℚ) ≤ (i : ℚ) := by exact_mod_cast Nat.zero_le i
+    nlinarith [mul_nonneg this (le_of_lt hstep)]
+  · apply List.Pairwise.map _ _ (List.pairwise_lt_range (n := n))
+    intro i j hij
+    have : (i : ℚ) < (j : ℚ) := by exact_mod_cast hij
+    nlinarith
+
+
 /-- the same spectrum with its wavelengths expressed in another unit (factor k) -/
 def scaleS (k : ℚ) (s : Spectrum) : Spectrum := ⟨s.wave.map (· * k), s.value⟩
 
@@ -402,5 +433,239 @@ theorem cropStage2_scale (k hi : ℚ) (hk : 0 < k) (s : Spectrum) :
     cases Gen.cropHighGuard hi wl
     · simp
     · simp only [if_true, mask_high_scale k hi hk, keepMask_map]
+
+theorem interleave_length : ∀ (a b : List ℚ), a.length = b.length + 1 → (interleave a b).length = a.length + b.length := by
+  intro a
+  induction a with
+  | nil => intro b h; simp at h
+  | cons x xs ih =>
+    intro b h
+    cases b with
+    | nil => simp [interleave]
+    | cons y ys =>
+      have := ih ys (by simpa using h)
+      simp only [interleave, List.length_cons, this]; omega
+
+theorem simpsBins_length : ∀ (k : ℕ) (x f : List ℚ), x.length = f.length → x.length = 2 * k + 1 → (simpsBins x f).length = k := by
+  intro k
+  induction k with
+  | zero =>
+    intro x f hl hx
+    match x, f, hl, hx with
+    | [x0], [f0], _, _ => simp [simpsBins]
+  | succ k ih =>
+    intro x f hl hx
+    match x, f, hl, hx with
+    | x0 :: x1 :: x2 :: xs, f0 :: f1 :: f2 :: fs, hl, hx =>
+      have := ih (x2 :: xs) (f2 :: fs) (by simpa using hl) (by simp at hx ⊢; omega)
+      simp [simpsBins, this]
+
+theorem simpsPoints_length (sym intC : Bool) (c : List ℚ) (hc : 2 ≤ c.length) : (simpsPoints sym c intC).length = 2 * c.length + 1 := by
+  match c, hc with
+  | c0 :: c1 :: cs, _ =>
+    have hm : ((midpoints (c0 :: c1 :: cs)).map (fun q : ℚ => if intC then truncQ q else q)).length = (c0 :: c1 :: cs).length - 1 := by
+      rw [List.length_map, midpoints_length]
+    have hi := interleave_length (c0 :: c1 :: cs) ((midpoints (c0 :: c1 :: cs)).map (fun q : ℚ => if intC then truncQ q else q))
+      (by rw [hm]; simp)
+    rw [hm] at hi
+    cases hcs : (c1 :: cs).getLast? with
+    | none => simp at hcs
+    | some l =>
+      cases hd : ((c0 :: c1 :: cs).dropLast).getLast? with
+      | none => simp at hd
+      | some p =>
+        simp only [simpsPoints, List.getLast?_cons_cons, hcs, hd]
+        cases sym
+        · -- inside
+          simp only [Bool.false_eq_true, if_false]
+          generalize hx : interleave (c0 :: c1 :: cs) ((midpoints (c0 :: c1 :: cs)).map (fun q : ℚ => if intC then truncQ q else q)) = x at hi
+          match x, hi with
+          | x0 :: x1 :: rest, hi =>
+            simp only []
+            cases hA : (x1 :: rest).getLast? with
+            | none => simp at hA
+            | some l' =>
+              cases hB : ((x0 :: (if intC then truncQ (x0 + (x1 - x0) / 2) else x0 + (x1 - x0) / 2) :: x1 :: rest).dropLast).getLast? with
+              | none => simp at hB
+              | some p' =>
+                simp only [List.length_append, List.length_dropLast, List.length_cons, List.length_nil]
+                simp only [List.length_cons] at hi
+                omega
+          | [], hi => simp at hi
+          | [x0], hi => simp at hi; omega
+        · simp only [if_true, List.length_cons, List.length_append] at hi ⊢
+          simp at hi ⊢; omega
+
+
+theorem seg_nonneg : ∀ (xs ys : List ℚ) (x : ℚ), StrictInc xs → (∀ y ∈ ys, 0 ≤ y) → (∀ a, xs.head? = some a → a ≤ x) →
+    0 ≤ seg xs ys x := by
+  intro xs
+  induction xs with
+  | nil => intro ys x _ hy _; cases ys with
+    | nil => simp [seg]
+    | cons y0 _ => simp only [seg]; exact hy y0 (by simp)
+  | cons x0 xs ih =>
+    intro ys x hs hy hx
+    cases xs with
+    | nil => cases ys with
+      | nil => simp [seg]
+      | cons y0 _ => simp only [seg]; exact hy y0 (by simp)
+    | cons x1 rest =>
+      cases ys with
+      | nil => simp [seg]
+      | cons y0 ys => cases ys with
+        | nil => simp only [seg]; exact hy y0 (by simp)
+        | cons y1 ys' =>
+          have h01 : x0 < x1 := (List.pairwise_cons.mp hs).1 x1 (by simp)
+          have hx0 : x0 ≤ x := hx x0 (by simp)
+          have hy0 := hy y0 (by simp); have hy1 := hy y1 (by simp)
+          by_cases hx1 : x ≤ x1
+          · simp only [seg, hx1, if_true]
+            have hd : 0 < x1 - x0 := by linarith
+            have : (y1 - y0) / (x1 - x0) * (x - x0) + y0 = (y1 * (x - x0) + y0 * (x1 - x)) / (x1 - x0) := by
+              field_simp; ring
+            rw [this]
+            apply div_nonneg _ (le_of_lt hd)
+            have : 0 ≤ x - x0 := by linarith
+            have : 0 ≤ x1 - x := by linarith
+            positivity
+          · simp only [seg, hx1, if_false]
+            apply ih (y1 :: ys') x (List.pairwise_cons.mp hs).2 (fun y hy' => hy y (by simp at hy' ⊢; tauto))
+            intro a ha; simp at ha; subst ha; linarith
+
+theorem interpAt_nonneg (xs ys : List ℚ) (fl fr x : ℚ) (hs : StrictInc xs) (hy : ∀ y ∈ ys, 0 ≤ y) (hfl : 0 ≤ fl) (hfr : 0 ≤ fr) :
+    0 ≤ interpAt xs ys fl fr x := by
+  unfold interpAt
+  cases ha : xs.head? with
+  | none => simpa using hfl
+  | some a =>
+    cases hb : xs.getLast? with
+    | none => simpa using hfl
+    | some b =>
+      simp only []
+      by_cases h1 : x < a
+      · simp [h1, hfl]
+      · by_cases h2 : b < x
+        · simp [h1, h2, hfr]
+        · simp only [h1, h2, if_false]
+          exact seg_nonneg xs ys x hs hy (fun a' ha' => by rw [ha] at ha'; cases ha'; linarith)
+
+/-- adjacent entries are non-decreasing -/
+def adjLe : List ℚ → Prop
+  | x0 :: x1 :: xs => x0 ≤ x1 ∧ adjLe (x1 :: xs)
+  | _ => True
+
+theorem trapzBins_nonneg_adj : ∀ x f : List ℚ, adjLe x → (∀ v ∈ f, 0 ≤ v) → ∀ b ∈ trapzBins x f, 0 ≤ b := by
+  intro x
+  induction x with
+  | nil => intro f _ _ b hb; simp [trapzBins] at hb
+  | cons x0 x ih =>
+    intro f hx hf b hb
+    cases x with
+    | nil => simp [trapzBins] at hb
+    | cons x1 xs => cases f with
+      | nil => simp [trapzBins] at hb
+      | cons f0 f => cases f with
+        | nil => simp [trapzBins] at hb
+        | cons f1 fs =>
+          simp only [trapzBins, Gen.trapzTerm, List.mem_cons] at hb
+          rcases hb with rfl | hb
+          · have h01 : x0 ≤ x1 := hx.1
+            have := hf f0 (by simp); have := hf f1 (by simp)
+            have : 0 ≤ x1 - x0 := by linarith
+            positivity
+          · exact ih (f1 :: fs) hx.2 (fun v hv => hf v (by simp [hv])) b hb
+
+theorem adjLe_edges : ∀ (c : List ℚ) (c0 e hiE : ℚ), StrictInc (c0 :: c) → c ≠ [] → e ≤ c0 →
+    (∀ l, (c0 :: c).getLast? = some l → l ≤ hiE) → adjLe (e :: midpoints (c0 :: c) ++ [hiE]) := by
+  intro c
+  induction c with
+  | nil => intro c0 e hiE _ hne; exact absurd rfl hne
+  | cons c1 cs ih =>
+    intro c0 e hiE hs _ he hl
+    have h01 : c0 < c1 := (List.pairwise_cons.mp hs).1 c1 (by simp)
+    have hm0 : c0 ≤ Gen.binMid c0 c1 := by simp only [Gen.binMid]; linarith
+    have hm1 : Gen.binMid c0 c1 ≤ c1 := by simp only [Gen.binMid]; linarith
+    cases cs with
+    | nil =>
+      simp only [midpoints, List.cons_append, List.nil_append, adjLe]
+      exact ⟨le_trans he hm0, le_trans hm1 (hl c1 (by simp)), trivial⟩
+    | cons c2 cs' =>
+      have := ih c1 (Gen.binMid c0 c1) hiE (List.pairwise_cons.mp hs).2 (by simp) hm1
+        (fun l hl' => hl l (by rw [List.getLast?_cons_cons]; exact hl'))
+      simp only [midpoints, List.cons_append, adjLe] at this ⊢
+      exact ⟨le_trans he hm0, this⟩
+
+theorem secondLast_lt_last (l : List ℚ) (cl cp : ℚ) (hs : StrictInc l) (h1 : l.getLast? = some cl) (h2 : l.dropLast.getLast? = some cp) :
+    cp < cl := by
+  have hne : l ≠ [] := by intro h; simp [h] at h1
+  have hd := List.dropLast_append_getLast? cl (by simpa using h1)
+  rw [← hd] at hs
+  have := (List.pairwise_append.mp hs).2.2 cp (List.mem_of_getLast? h2) cl (by simp)
+  exact this
+
+theorem adjLe_trapzEdges (sym : Bool) (c : List ℚ) (hs : StrictInc c) : adjLe (trapzEdges sym c) := by
+  unfold trapzEdges
+  match c, hs with
+  | [], _ => simp [adjLe]
+  | [c0], _ => simp [adjLe]
+  | c0 :: c1 :: cs, hs =>
+    cases hl : (c0 :: c1 :: cs).getLast? with
+    | none => simp [adjLe]
+    | some cl =>
+      cases hp : ((c0 :: c1 :: cs).dropLast).getLast? with
+      | none => simp [adjLe]
+      | some cp =>
+        simp only []
+        have hlt := secondLast_lt_last _ cl cp hs hl hp
+        have h01 : c0 < c1 := (List.pairwise_cons.mp hs).1 c1 (by simp)
+        apply adjLe_edges (c1 :: cs) c0 _ _ hs (by simp)
+        · cases sym <;> simp [Gen.binEndLo] <;> linarith
+        · intro l hl'; rw [hl] at hl'; cases hl'
+          cases sym <;> simp [Gen.binEndHi] <;> linarith
+
+
+theorem adjLe_of_strictInc : ∀ l : List ℚ, StrictInc l → adjLe l := by
+  intro l
+  induction l with
+  | nil => intro _; trivial
+  | cons x xs ih =>
+    intro h
+    cases xs with
+    | nil => trivial
+    | cons y ys => exact ⟨le_of_lt ((List.pairwise_cons.mp h).1 y (by simp)), ih (List.pairwise_cons.mp h).2⟩
+
+theorem trapz_nonneg : ∀ w v : List ℚ, adjLe w → (∀ y ∈ v, 0 ≤ y) → 0 ≤ trapz w v := by
+  intro w
+  induction w with
+  | nil => intro v _ _; simp [trapz]
+  | cons x0 w ih =>
+    intro v hw hv
+    cases w with
+    | nil => simp [trapz]
+    | cons x1 xs => cases v with
+      | nil => simp [trapz]
+      | cons y0 v => cases v with
+        | nil => simp [trapz]
+        | cons y1 ys =>
+          have := ih (y1 :: ys) hw.2 (fun y hy => hv y (by simp [hy]))
+          have h0 := hv y0 (by simp); have h1 := hv y1 (by simp)
+          have hx : 0 ≤ x1 - x0 := by have := hw.1; linarith
+          simp only [trapz]
+          have hs : 0 ≤ y1 + y0 := by linarith
+          have : 0 ≤ (x1 - x0) * (y1 + y0) / 2 := div_nonneg (mul_nonneg hx hs) (by norm_num)
+          linarith
+
+theorem mem_keepMask (m : List Bool) : ∀ (l : List ℚ) (x : ℚ), x ∈ keepMask m l → x ∈ l :=
+  fun l x hx => (keepMask_sublist m l).subset hx
+
+theorem sumL_nonneg (l : List ℚ) (h : ∀ x ∈ l, 0 ≤ x) : 0 ≤ sumL l := by
+  rw [sumL_eq_sum]
+  induction l with
+  | nil => simp
+  | cons a l ih =>
+    have := ih (fun x hx => h x (by simp [hx]))
+    have := h a (by simp)
+    simp only [List.sum_cons]; linarith
 
 end Lentil.Spec
